@@ -22,7 +22,7 @@ func (l *Loader) reportResponseCacheError(err error) {
 	}
 }
 
-func responseCacheSelectionHash(header, footer []byte, undefinedVariables []string) uint64 {
+func responseCacheSelectionHash(header, footer []byte, undefinedVariables []string, extensions []byte) uint64 {
 	d := pool.Hash64.Get()
 	defer pool.Hash64.Put(d)
 	_, _ = d.Write(header)
@@ -35,6 +35,13 @@ func responseCacheSelectionHash(header, footer []byte, undefinedVariables []stri
 	for _, name := range undefinedVariables {
 		_, _ = d.Write([]byte{0})
 		_, _ = d.WriteString(name)
+	}
+	// The extensions of the client's request are put into the body right before the request is
+	// sent, after this key was computed: requests that differ only there are different subgraph
+	// requests and must not share an entry. (1 cannot start a variable name.)
+	if len(extensions) > 0 {
+		_, _ = d.Write([]byte{0, 1})
+		_, _ = d.Write(extensions)
 	}
 	return d.Sum64()
 }
